@@ -20,11 +20,12 @@ claimed = {
  "C17": ("gnative", "real session goroutines against a scripted peer over simulated TCP with connection faults; peer table of the current connection equals the last requested set within 5 simulated minutes after faults stop; refused ASN; silence after Close"),
  "C19": ("gfrr", "history of submissions / reload attempts / reloader results under seeded schedules and failure patterns: latest-wins, no stale apply, retry, coalescing, no reload for identical resubmission, bounded convergence after faults stop; plus the frr-k8s debouncer/reconciler delivery"),
  "C18": ("kspk", "fork check at every quiescence: fresh ConfigReconcilers over the same snapshot under drawn List permutations and map orders agree (DeepEqual) or all reject, recomputation looks unchanged; unrelated events never reach the handler"),
+ "C20": ("gconc", "real handler goroutines of the controller and speaker processes run concurrently against the real k8s.Listener / allocator / announcers under the seeded scheduler in a binary built with the Go race detector (scheduler hand-offs invisible to it, scheduler-owned locks report acquire/release: a missing or misplaced lock is a deterministic replayable data race); no deadlock; final state and every concurrent status query equal the serial replay of the same handler calls in lock-acquisition order"),
 }
 na = {
  "C08": "pure function of its input (config.For/toConfig): no schedule, clock, fault or interleaving for a simulator to vary; belongs to property-based testing/SMT (DESIGN.md §5)",
 }
-pending = ["C20"]
+pending = []
 checks=[]
 for pid,(eng,txt) in sorted(claimed.items()):
     checks.append({
@@ -46,7 +47,7 @@ m={
   {"name":"gfrr","path":"harness/internal/bgp/frr","serves_properties":["C14","C19"],"kind_free_text":"goroutine engine over the FRR session manager, debouncer and reload validator; simulated files, reloader and FRR (interpreter)"},
   {"name":"gfrrk8s","path":"harness/internal/k8s/controllers","serves_properties":["C15","C19"],"kind_free_text":"goroutine engine over the frr-k8s session manager and FRRK8sReconciler (debouncer + Reconcile) with a simulated API server"},
   {"name":"gl2","path":"harness/internal/layer2","serves_properties":["C13"],"kind_free_text":"goroutine engine over layer2.Announce, arpResponder goroutines and the gratuitous loop with simulated raw sockets; porcupine"},
-  {"name":"kspk","path":"harness/speaker","serves_properties":["C04","C05","C09","C10","C12","C18"],"kind_free_text":"single-goroutine discrete-event simulation of N speaker processes (real speaker controller, layer2/bgp controllers, reconcilers) over one simulated API server with per-speaker informer caches and queues, simulated memberlist, recording BGP session manager; speaker crash/restart, false suspicion, lag, reordering"},{"name":"kctl","path":"harness/controller","serves_properties":["C01","C02","C03","C06","C07","C11"],"kind_free_text":"single-goroutine discrete-event simulation of the controller process: real controller/allocator/reconcilers over a simulated API server, informer cache and work queues; nested scheduling at handler granularity; crash/restart and API write faults"}],
+  {"name":"kspk","path":"harness/speaker","serves_properties":["C04","C05","C09","C10","C12","C18"],"kind_free_text":"single-goroutine discrete-event simulation of N speaker processes (real speaker controller, layer2/bgp controllers, reconcilers) over one simulated API server with per-speaker informer caches and queues, simulated memberlist, recording BGP session manager; speaker crash/restart, false suspicion, lag, reordering"},{"name":"gconc","path":"harness/controller","serves_properties":["C20"],"kind_free_text":"goroutine engine with -race over the controller process's three worker goroutines (service, pool/config, pool-status) against the real Listener lock and allocator"},{"name":"gconcspk","path":"harness/speaker","serves_properties":["C20"],"kind_free_text":"goroutine engine with -race over the speaker process's handler goroutines (service, config, node, memberlist-triggered re-sync, layer-2 / BGP status queries)"},{"name":"kctl","path":"harness/controller","serves_properties":["C01","C02","C03","C06","C07","C11"],"kind_free_text":"single-goroutine discrete-event simulation of the controller process: real controller/allocator/reconcilers over a simulated API server, informer cache and work queues; nested scheduling at handler granularity; crash/restart and API write faults"}],
  "checks":checks,
  "not_applicable":[{"property_id":k,"reason":v} for k,v in na.items()]+[{"property_id":p,"reason":"check not built yet in this session (engine under construction, see DESIGN.md §8); not claimed"} for p in pending],
  "notes":"Genuine defects repaired in /repo are 'fix:' commits listed in known_findings.json under fixed; recorded ones under findings."
